@@ -262,6 +262,9 @@ def judge_batch(acc, results, family):
             acc.samples.append({'variant': r['variant'], 'sched': ' '.join(sched), 'outcomes': repr(r['outcomes'])})
 
 
+FAIL_CLASSES = ('BadNamespaceError', 'TimeoutError', 'SocketIOError', 'ConnectionError')
+
+
 def work(task):
     """pool worker: enumerate the subtree of one prefix (or run a list of sampled schedules)"""
     kind, c, arg, family = task
@@ -274,8 +277,10 @@ def work(task):
                 judge_batch(acc, chunk, family)
                 chunk = []
     else:
-        for sched in arg:
-            chunk.append(run_tokens(c['variant'], sched))
+        from socketio import exceptions as sx
+        for i, sched in enumerate(arg):
+            # which SocketIOError subclass the scripted client raises must not matter
+            chunk.append(run_tokens(c['variant'], sched, getattr(sx, FAIL_CLASSES[(i + len(sched)) % 4])))
     judge_batch(acc, chunk, family)
     return acc
 
@@ -431,6 +436,19 @@ def run(ctx):
             'Runs ending with the consumer parked: %d' % total.counters.get('end.blocked', 0)],
         'enumeration_wall_s': round(time.time() - t0, 1), 'workers': nproc,
     })
+    # side observation, outside the text of C19 (recorded, not judged)
+    from socketio import exceptions as sx
+    W_ = W()
+    w = W_.ThreadWorld(sx.TimeoutError)
+    for t in 'Kc Kc Sc C C Cf C C C'.split():
+        w.do(t)
+    ctx.notes.append(
+        'observation (not part of C19): socketio.exceptions.TimeoutError subclasses SocketIOError, so '
+        'SimpleClient.call() swallows the TimeoutError raised by client.call() in `except SocketIOError: pass` '
+        'and sends the event again; call(timeout=...) never raises TimeoutError although its docstring says '
+        'so. Executed here: client.call raised TimeoutError once -> attempts=%d, outcome=%r'
+        % (w.client.attempts, w.outcome_list()))
+    w.close()
     ctx.assumptions += ['timeouts are scheduled, never measured: `T` makes the pending timed wait expire',
                         'the scripted client accepts or refuses (SocketIOError) an emit/call as the schedule says']
 
